@@ -36,7 +36,8 @@ RULE = ("abstract definitions (python adef) from five streams — (A) systematic
 # ---------------------------------------------------------------------------------------------------------------
 
 CFG_POOL = ["foo", 'feature = "x"', "not(foo)", 'all(foo, feature = "y")', 'any(unix, windows)']
-DOC_POOL = ["A thing", " leading space kept", "two\nlines", "Quote \" and \\ backslash", "tab\there"]
+DOC_POOL = ["A thing", " leading space kept", "two\nlines", "Quote \" and \\ backslash", "tab\there",
+            "first paragraph\n\nsecond paragraph", "trailing blank line\n", "\nleading blank line", "a\n\n\nb", ""]
 ACCESSES = [None, "RW", "RO", "WO"]
 
 
